@@ -365,14 +365,14 @@ Proof.
 Qed.
 Lemma wt_lower v : WT v -> okP WT (lower v).
 Proof.
-  destruct v; try (intros; exact I). intros H. cbn [lower]. destruct (all_ascii s) eqn:A; [|exact I].
+  destruct v; try (intros; exact I). intros H. cbn [lower]. destruct (all_ascii s) eqn:A; [|exact (V_E_any _)].
   cbn [okP]. apply WT_str, V_ascii, ascii_map; [|apply all_ascii_V; assumption].
   intros b Hb. unfold ascii_byte in *. b2p. destruct ((65 <=? b) && (b <=? 90)) eqn:C; b2p;
     apply andb_true_iff; (split; [apply Z.leb_le|apply Z.ltb_lt]); lia.
 Qed.
 Lemma wt_upper v : WT v -> okP WT (upper v).
 Proof.
-  destruct v; try (intros; exact I). intros H. cbn [upper]. destruct (all_ascii s) eqn:A; [|exact I].
+  destruct v; try (intros; exact I). intros H. cbn [upper]. destruct (all_ascii s) eqn:A; [|exact (V_E_any _)].
   cbn [okP]. apply WT_str, V_ascii, ascii_map; [|apply all_ascii_V; assumption].
   intros b Hb. unfold ascii_byte in *. b2p. destruct ((97 <=? b) && (b <=? 122)) eqn:C; b2p;
     apply andb_true_iff; (split; [apply Z.leb_le|apply Z.ltb_lt]); lia.
@@ -828,6 +828,7 @@ Proof. destruct v; try exact I; reflexivity. Qed.
 Lemma wt_call1 f a : WT a -> okP WT (call1 f a).
 Proof.
   intros H. destruct f; cbn [call1 okP];
+    try (match goal with |- okP WT (lower _) => apply wt_lower; exact H | |- okP WT (upper _) => apply wt_upper; exact H end);
     first [ apply wt_num1 | apply wt_avg | apply wt_from_items; exact H | apply wt_items; exact H
           | apply wt_keys; exact H | apply wt_length | apply wt_lower; exact H
           | apply wt_array_extreme; exact H
@@ -1297,10 +1298,12 @@ Example slice_extreme_bounds :
   slice_step (VStr [97;195;169;226;130;172]) MaxInt MinInt (-1) = Ok (VStr [226;130;172;195;169;97]).
 Proof. vm_compute. repeat split; reflexivity. Qed.
 
-(* lower / upper are decided by the model on ASCII only: outside, the outcome is
-   Unmodelled (not Ok), so the theorem says nothing about them there *)
-Example lower_non_ascii_unmodelled : lower (VStr [195;137]) = Unmodelled.
-Proof. reflexivity. Qed.
+(* lower / upper follow the simple case mappings of the Go toolchain (Gen/CaseTable.v) for every string:
+   "É" -> "é", the Kelvin sign (3 bytes) -> "k" (1 byte), an invalid byte -> U+FFFD *)
+Example lower_non_ascii : lower (VStr [195;137]) = Ok (VStr [195;169]) /\
+  lower (VStr [226;132;170]) = Ok (VStr [107]) /\ upper (VStr [201;144;98]) = Ok (VStr [226;177;175;66]) /\
+  lower (VStr [65;255]) = Ok (VStr [97;239;191;189]).
+Proof. vm_compute. repeat split; reflexivity. Qed.
 (* likewise to_string of a computed (decimal128 / float) number *)
 Example to_string_decimal_unmodelled : forall neg c e, to_string (VNum (NDec (DFin neg c e))) = Unmodelled.
 Proof. reflexivity. Qed.
